@@ -77,8 +77,8 @@ package sql
 //@ effect[C11:append-preserves-row-metadata] every sms.objectRepository.UpdateObjectByIdAndOptimisticLockVersion(_, _, $e, _)
 //@     needs before sms.objectRepository.FindObjectByBucketNameAndKey(_, _, _, _) -> ($old, $oe)
 //@     where $oe == nil && $old != nil && $e != nil && specRowsAgreeOnMetadata($e, $old) && specSameOpt($e.StorageClass, $old.StorageClass) && $e.Id == $old.Id
-//@ effect[C11:append-keeps-tags] never sms.tagRepository.$M(__) if oldObjectEntity != nil
-//@ effect[C11:append-keeps-user-metadata] never sms.userMetadataRepository.$M(__) if oldObjectEntity != nil
+//@ effect[C11:append-keeps-tags] never sms.tagRepository.$M(__) if oldObjectEntity != nil && specNotAGeneratedVersion(oldObjectEntity.VersionID)
+//@ effect[C11:append-keeps-user-metadata] never sms.userMetadataRepository.$M(__) if oldObjectEntity != nil && specNotAGeneratedVersion(oldObjectEntity.VersionID)
 
 //@ func (*sqlMetadataStore).TransitionObject
 //@ mode effects
@@ -159,11 +159,12 @@ package sql
 //@     needs before sms.objectRepository.FindObjectByBucketNameAndKey(_, _, $b, $k) -> ($old, $oe)
 //@     where $oe == nil && $old != nil && $e != nil && $e.Id == $old.Id && $v == $old.OptimisticLockVersion && $b == bucketName && $k == obj.Key &&
 //@         $e.VersionID == $old.VersionID
-//@ effect[C12:existing-row-never-blindly-overwritten] never sms.objectRepository.SaveObject(_, _, _) if oldObjectEntity != nil
+//@ effect[C12:existing-row-never-blindly-overwritten] never sms.objectRepository.SaveObject(_, _, _) if oldObjectEntity != nil && specNotAGeneratedVersion(oldObjectEntity.VersionID)
 //@ ensures[C12:lost-race-reported] called(sms.objectRepository.UpdateObjectByIdAndOptimisticLockVersion) && result_of(sms.objectRepository.UpdateObjectByIdAndOptimisticLockVersion, 1) == nil &&
 //@     !*result_of(sms.objectRepository.UpdateObjectByIdAndOptimisticLockVersion, 0) ==> err == metadatastore.ErrCASFailure
 //@ effect[C12:new-part-rows-continue-the-sequence] every sms.savePartRows(_, _, $id, $p, $from) if oldObjectEntity != nil where $from == len(existingParts)
 //@ effect[C13:in-place-append-only-without-enabled-versioning] every sms.objectRepository.UpdateObjectByIdAndOptimisticLockVersion(_, _, _, _) where !versioningEnabled
+//@ effect[C13:in-place-append-only-to-the-null-version] every sms.objectRepository.UpdateObjectByIdAndOptimisticLockVersion(_, _, $e, _) where $e != nil && specNotAGeneratedVersion($e.VersionID)
 
 // DeleteObject. C02/C13: deleting a named version destroys exactly that version's row; if it was the latest, the row
 // promoted is the one FindLatest...ExcludingID selects (newest remaining); a key-only delete in an Enabled / Suspended
@@ -196,3 +197,35 @@ package sql
 //@ ensures[C14:transition-rewrites-row-and-parts] err == nil ==> called(sms.objectRepository.UpdateObjectByIdAndOptimisticLockVersion) && called(sms.removePartRowsByObjectId) && called(sms.savePartRows)
 //@ effect[C14:transition-stores-the-given-parts] every sms.savePartRows(_, _, $id, $p, $from) where $from == 0 && same($p, parts)
 //@ effect[C14:transition-keeps-the-version] every sms.objectRepository.UpdateObjectByIdAndOptimisticLockVersion(_, _, $e, _) where $e != nil && $e.ETag == expectedETag && !$e.IsDeleteMarker
+
+// ---------------------------------------------------------------------------------------------------------------
+// C13, Last-Modified. The repository sets updated_at := now on every update of an existing row (SaveObject with an id,
+// UpdateObjectByIdAndOptimisticLockVersion), and Last-Modified is reported from updated_at. So the row of an existing
+// version must not be rewritten for bookkeeping (demotion / promotion of is_latest, tagging, storage-class label).
+// These clauses FAIL on the pinned tree; the failing call sites are recorded in /verif/known-findings.json
+// (KF-C13-last-modified-*), demonstration /verif/replay/demos/C13_last_modified_test.go.
+//@ func (*sqlMetadataStore).PutObject
+//@ mode effects
+//@ requires obj != nil
+//@ effect[C13:demotion-keeps-last-modified] never sms.objectRepository.SaveObject(_, _, $e) if $e != nil && $e.Id != nil && !$e.IsLatest && !specNotAGeneratedVersion($e.VersionID)
+
+//@ func (*sqlMetadataStore).CompleteMultipartUpload
+//@ mode effects
+//@ effect[C13:demotion-keeps-last-modified] never sms.objectRepository.SaveObject(_, _, $e) if $e != nil && $e.Id != nil && !$e.IsLatest && !specNotAGeneratedVersion($e.VersionID)
+
+//@ func (*sqlMetadataStore).DeleteObject
+//@ mode effects
+//@ effect[C13:demotion-keeps-last-modified] never sms.objectRepository.SaveObject(_, _, $e) if $e != nil && $e.Id != nil && !$e.IsLatest && !specNotAGeneratedVersion($e.VersionID)
+//@ effect[C13:promotion-keeps-last-modified] never sms.objectRepository.SaveObject(_, _, $e) if $e != nil && $e.Id != nil && $e.IsLatest
+
+//@ func (*sqlMetadataStore).PutObjectTagging
+//@ mode effects
+//@ effect[C13:tagging-keeps-last-modified] never sms.objectRepository.SaveObject(_, _, _)
+
+//@ func (*sqlMetadataStore).DeleteObjectTagging
+//@ mode effects
+//@ effect[C13:tagging-keeps-last-modified] never sms.objectRepository.SaveObject(_, _, _)
+
+//@ func (*sqlMetadataStore).TransitionObject
+//@ mode effects
+//@ effect[C13:transition-keeps-last-modified] never sms.objectRepository.UpdateObjectByIdAndOptimisticLockVersion(_, _, _, _)
